@@ -184,6 +184,7 @@ End Prog.
 Section TemplateChunks.
 Variable o : jopts.
 Hypothesis HCN : cn_ok o.
+Hypothesis HNB : o_msgs o = None.
 
 Lemma gres_mod_auto a' st i b a s n : shape st i b a s n -> gres (jmod (set_auto a')) st [] i b a' s n.
 Proof. intro H. exists (set_auto a' st). split; [reflexivity|]. destruct st; cbn in *. split; [reflexivity|]. destruct H as (? & ? & ? & ? & ?). repeat split; assumption. Qed.
@@ -239,7 +240,7 @@ Proof.
     gbind x8 Hx8. eapply gres_push; exact Hx7.
     gbind x9 Hx9.
     { apply (gen_nlist o (ct_body t) lv F1 x8 jb n' 1%nat t_output (ct_mode t) ([] :: sc) n
-               (proj1 (proj2 (sgen_print_all o HCN)) (ct_body t)) ltac:(lia) Hlv Hwf Hx8 Eg). }
+               (proj1 (proj2 (sgen_print_all o HCN HNB)) (ct_body t)) ltac:(lia) Hlv Hwf Hx8 Eg). }
     gbind x10 Hx10. eapply gres_sln; exact Hx9.
     gbind x11 Hx11. eapply gres_dec; exact Hx10.
     gbind x12 Hx12. eapply gres_sln; exact Hx11.
@@ -251,7 +252,7 @@ End TemplateChunks.
 
 (* ---- a template of a program built from the proved stages: the three sides together ---- *)
 Theorem gen_correct_partial_template cf o p cnt :
-  c_oblig cf = [] -> (forall x, c_ij cf = Some x -> core_value x = true) -> r_templates (c_reg cf) = c04_templates p -> cn_ok o ->
+  c_oblig cf = [] -> (forall x, c_ij cf = Some x -> core_value x = true) -> r_templates (c_reg cf) = c04_templates p -> cn_ok o -> o_msgs o = None ->
   forall k name cenv text, c04_tout (c_ij cf) go_print_text p k name cenv = Some text ->
   exists t, c04_find p name = Some t
   /\ (* Go: evalCall / Execute entering the template *)
@@ -268,7 +269,7 @@ Theorem gen_correct_partial_template cf o p cnt :
              (c04_tprint (template_header_line o name) (ct_allopt t) (c04_jbody t (cnt name))) 0 t_output (ct_ns_ae t) [[]]
              (snd (bgen (ct_mode t) t_output c04_body_scope (cnt name) (ct_body t)))).
 Proof.
-  intros Hob Hij Hreg HCN k name cenv text E.
+  intros Hob Hij Hreg HCN HNB k name cenv text E.
   assert (Ht : exists t, c04_find p name = Some t).
   { destruct k as [|k]; [discriminate|]. cbn [c04_tout] in E. destruct (c04_find p name) as [t|]; [eauto|discriminate]. }
   destruct Ht as (t & Ef). exists t. split; [exact Ef|]. pose proof (c04_find_name p name t Ef) as Hname. split; [|split].
@@ -279,5 +280,5 @@ Proof.
   - intros F st bf Hf Hwf Hs Hao. subst name. unfold c04_jbody.
     destruct (bgen (ct_mode t) t_output c04_body_scope (cnt (ct_name t)) (ct_body t)) as [jb n'] eqn:Eg. cbn [fst snd].
     rewrite <- Hao.
-    apply (gen_template o HCN t [] F st jb n' bf [[]] (cnt (ct_name t)) Hf Hwf); [intros x Hx; discriminate Hx|exact Hs|exact Eg].
+    apply (gen_template o HCN HNB t [] F st jb n' bf [[]] (cnt (ct_name t)) Hf Hwf); [intros x Hx; discriminate Hx|exact Hs|exact Eg].
 Qed.
